@@ -103,20 +103,38 @@ theorem connection_order_after_history (P : Prog) (ne nl fuel : Nat) (ops : List
     unchanged by whatever ran in between, and every `emit` call returns exactly once (also when the
     fuel runs out).  With `emit_refines` (the logs of model and specification are equal, arguments and
     `emit` marks included) the same holds for the specification.
-    Not modelled: parameter types that are references (`A = T&`: all slots then share the caller's
-    object; exercised by the `refargs` line of the correspondence run only). -/
+    Parameter types that are references (`P.ref g`: the signal is declared `void sig(int&)`, so `emit` declares
+    `int& arg0`): see `args_forwarded_ref`; `fwd` covers both kinds. -/
 theorem args_forwarded (P : Prog) (ne nl fuel : Nat) (ops : List Action) :
-    fwd [] (runOps machine P fuel (Run.init State.fresh ne nl) ops).log.reverse = some [] := by
+    fwd P.ref [] (runOps machine P fuel (Run.init State.fresh ne nl) ops).log.reverse = some [] := by
   obtain ⟨new, h, hf⟩ := runOps_fwd machine P fuel ops (Run.init State.fresh ne nl)
   rw [h]
   simpa [Run.init] using hf []
 
-/-- ... and inside one emission: whatever the loop of an emission with argument `v` adds to the log
-    (from any state, any fuel, any machine state) is accepted under `v` and leaves the stack as it was -/
+/-- ... and inside one emission: whatever the loop of an emission with a BY-VALUE argument `v` adds to the log (from
+    any state, any fuel) is accepted under `v` and leaves the stack, `v` included, as it was -/
 theorem args_forwarded_loop (P : Prog) (fuel : Nat) (r : Run State) (fid : Nat) (idx : Option Nat) (v : Nat) :
-    ∃ new, (exec machine P fuel r (.loop fid idx v)).log = new ++ r.log ∧
-      ∀ st, fwd (v :: st) new.reverse = some (v :: st) :=
-  (exec_fwd machine P fuel).2 r fid idx v
+    ∃ new, (exec machine P fuel r (.loop fid idx ⟨v, false⟩)).log = new ++ r.log ∧
+      ∀ st, fwd P.ref (⟨v, false⟩ :: st) new.reverse = some (⟨v, false⟩ :: st) := by
+  obtain ⟨new, v', h, hv, hf⟩ := (exec_fwd machine P fuel).2 r fid idx ⟨v, false⟩
+  rw [hv rfl] at hf
+  exact ⟨new, h, hf⟩
+
+/-- **args_forwarded_ref — reference-typed arguments.**  When the parameter type of the signal is a reference
+    (`A = int&`, `const T&`; a pointer behaves alike for the pointee) `emit` declares `A arg0`, i.e. a reference to the
+    caller's object, and hands it to every slot: all slots of the emission work on ONE object.  In the evaluator the
+    argument of the loop is a cell (`Arg`, `ref = true`): every slot is called with the current content, a slot body
+    that adds to its parameter (`bump d`) leaves the sum in the cell (`ret w` in the log), and the loop goes on with
+    that.  For every program, every fuel, from any state: what the loop adds to the log is accepted by `fwd` started
+    with the cell `v` — the first slot sees the value the caller passed, each later slot sees exactly the value the
+    previous slot of this emission left (whatever nested emissions, by value or by reference, ran in between: they
+    have cells of their own), and the caller finds the value the last slot left (`v'`).  Whole runs: `args_forwarded`
+    (the `fwd` there treats every emission according to `P.ref`).  With `emit_refines` the specification's log is the same. -/
+theorem args_forwarded_ref (P : Prog) (fuel : Nat) (r : Run State) (fid : Nat) (idx : Option Nat) (v : Nat) :
+    ∃ new v', (exec machine P fuel r (.loop fid idx ⟨v, true⟩)).log = new ++ r.log ∧
+      ∀ st, fwd P.ref (⟨v, true⟩ :: st) new.reverse = some (v' :: st) := by
+  obtain ⟨new, v', h, _, hf⟩ := (exec_fwd machine P fuel).2 r fid idx ⟨v, true⟩
+  exact ⟨new, v', h, hf⟩
 
 /-- the same from any pair of related states in the middle of arbitrarily nested emissions
     (`K` = the loops in progress), for any script -/
@@ -130,7 +148,7 @@ theorem emit_refines_nested (P : Prog) (fuel : Nat) (K : MStack) (script : List 
 /-- the emission loop itself: from related states the rest of an emission produces the same log
     and ends in related states -/
 theorem emit_refines_loop (P : Prog) (fuel : Nat) (K : MStack) (fid : Nat) (idx : Option Nat) (eg : Nat × Nat) (snap : List Nat)
-    (v : Nat) (r₁ : Run State) (r₂ : Run SState) (h : RunRel Sim (((fid, idx), (eg, snap)) :: K) r₁ r₂) :
+    (v : Arg) (r₁ : Run State) (r₂ : Run SState) (h : RunRel Sim (((fid, idx), (eg, snap)) :: K) r₁ r₂) :
     (exec machine P fuel r₁ (.loop fid idx v)).log = (exec Spec.machine P fuel r₂ (.loop eg snap v)).log := by
   obtain ⟨_, _, hr⟩ := (exec_sim simOK P fuel).2 K fid idx eg snap v r₁ r₂ h
   exact hr.log
@@ -418,13 +436,13 @@ theorem fuel_irrelevant (P : Prog) (ne nl n : Nat) (ops : List Action)
     invocation) terminates: some fuel is enough for the model to run every top-level action to
     completion, and every larger fuel gives the same run.  (Proved on the specification, whose
     emission loop walks a snapshot that gets shorter, and carried over by the simulation.) -/
-theorem terminates (T : Table) (ne nl : Nat) (ops : List Action) :
-    ∃ fuel, (runOps machine (Prog.ofTable T) fuel (Run.init State.fresh ne nl) ops).oof = false ∧
+theorem terminates (T : Table) (rf : Nat → Bool) (ne nl : Nat) (ops : List Action) :
+    ∃ fuel, (runOps machine (Prog.ofTable T rf) fuel (Run.init State.fresh ne nl) ops).oof = false ∧
       ∀ fuel', fuel ≤ fuel' →
-        runOps machine (Prog.ofTable T) fuel' (Run.init State.fresh ne nl) ops =
-          runOps machine (Prog.ofTable T) fuel (Run.init State.fresh ne nl) ops := by
-  obtain ⟨n, hn⟩ := spec_runOps_terminates T ops (Run.init SState.fresh ne nl) rfl
-  have h := (runOps_rel (Prog.ofTable T) n ops (init_rel ne nl)).oof hn
+        runOps machine (Prog.ofTable T rf) fuel' (Run.init State.fresh ne nl) ops =
+          runOps machine (Prog.ofTable T rf) fuel (Run.init State.fresh ne nl) ops := by
+  obtain ⟨n, hn⟩ := spec_runOps_terminates T rf ops (Run.init SState.fresh ne nl) rfl
+  have h := (runOps_rel (Prog.ofTable T rf) n ops (init_rel ne nl)).oof hn
   exact ⟨n, h, fun n' hn' => runOps_fuel_mono machine _ n ops _ h n' hn'⟩
 
 /-- **The node numbers are ghosts.**  `Slot.node` (the identity of a list node, used by the proofs
@@ -511,9 +529,33 @@ example : (runOps machine cross 30 (Run.init State.fresh 2 3) crossOps).oof = fa
 
 /-- `fwd` is not trivially true: the D18 run is accepted, the same log with one argument changed or
     with an invocation outside every emission is rejected -/
-example : fwd [] (runOps machine d18 20 (Run.init State.fresh 1 2) d18ops).log.reverse = some [] := by decide
-example : fwd [] [.emitBegin 0 0 3, .call 0 0 3, .emitBegin 0 0 4, .call 1 0 3, .emitEnd, .emitEnd] = none := by decide
-example : fwd [] [.emitBegin 0 0 3, .emitEnd, .call 0 0 3] = none := by decide
+example : fwd d18.ref [] (runOps machine d18 20 (Run.init State.fresh 1 2) d18ops).log.reverse = some [] := by decide
+example : fwd (fun _ => false) [] [.emitBegin 0 0 3, .call 0 0 3, .emitBegin 0 0 4, .call 1 0 3, .emitEnd, .emitEnd] = none := by decide
+example : fwd (fun _ => false) [] [.emitBegin 0 0 3, .emitEnd, .call 0 0 3] = none := by decide
+
+/-! ### reference parameters: signal 9 is declared with `int&`; slot (0,0) adds 2, slot (1,1) adds 5 and emits the by-value
+    signal 1 in between, slot (2,0) adds nothing: they see 3, 5, 10; the nested by-value emission is untouched -/
+
+def refProg : Prog :=
+  { script := fun l s _ =>
+      if l = 0 ∧ s = 0 then [.bump 2]
+      else if l = 1 ∧ s = 1 then [.bump 1, .emit 0 1 7, .bump 4]
+      else if l = 2 ∧ s = 1 then [.bump 9] else []
+    ref := fun g => g == 9 }
+
+def refOps : List Action :=
+  [.connect 0 9 0 0, .connect 0 9 1 1, .connect 0 9 2 0, .connect 0 1 2 1, .connect 0 1 0 0, .emit 0 9 3]
+
+example : (runOps machine refProg 20 (Run.init State.fresh 1 3) refOps).log.reverse =
+    [.emitBegin 0 9 3, .call 0 0 3, .ret 5, .call 1 1 5, .emitBegin 0 1 7, .call 2 1 7, .call 0 0 7, .emitEnd, .ret 10,
+     .call 2 0 10, .ret 10, .emitEnd] := by decide
+
+example : (runOps Spec.machine refProg 20 (Run.init SState.fresh 1 3) refOps).log =
+    (runOps machine refProg 20 (Run.init State.fresh 1 3) refOps).log := by decide
+
+/-- `fwd` rejects the same log when a later slot does not see what the previous one left, or when a by-value slot "returns" a value -/
+example : fwd refProg.ref [] [.emitBegin 0 9 3, .call 0 0 3, .ret 5, .call 1 1 3, .ret 8, .emitEnd] = none := by decide
+example : fwd refProg.ref [] [.emitBegin 0 1 7, .call 2 1 7, .ret 16, .emitEnd] = none := by decide
 
 /-- the hypothesis of `emit_refines_nested` is met by the initial states -/
 example : RunRel Sim [] (Run.init State.fresh 3 3) (Run.init SState.fresh 3 3) := init_rel 3 3
